@@ -209,6 +209,124 @@ let op_pm_perm a =
   emit (Printf.sprintf "pm_perm has=%s has2=%s check=%s filtered=%s admits=%s" (b01 found) (b01 found)
           (if found then "ok" else "script") (b01 (pf <> None)) (pm_join_sorted adm))
 
+(* ---------------- round 5 (f): attribute selection of the object query handler ---------------- *)
+let pm_fnv (s : string) : int =
+  let h = ref 2166136261 in
+  String.iter (fun c -> h := ((!h lxor (Char.code c)) * 16777619) land 0xFFFFFFFF) s; !h
+let pm_digest (l : string list) : string =
+  match List.sort_uniq compare l with
+  | [] -> "-"
+  | v when List.length v <= 6 -> String.concat "+" v
+  | v -> Printf.sprintf "#%d:%08x" (List.length v) (pm_fnv (String.concat "," v))
+let pm_hexlist a k : pm_str list option =
+  if has a k then Some (List.map (fun x -> pm_zs (hex_dec x)) (pm_split ',' (str a k "-"))) else None
+let pm_areq_of a : pm_areq =
+  { ar_attrs = pm_hexlist a "attrs"; ar_joins = pm_hexlist a "aj"; ar_all_joins = (num a "alljoins" 0 <> 0); ar_meta = pm_hexlist a "meta" }
+let pm_aq_http a : pm_http =
+  let t = if str a "ptype" "hosts" = "services" then PmService else PmHost in
+  let q = pm_query_of a in
+  let q = { q with pq_type = Some (match t with PmHost -> PmQHost | PmService -> PmQService) } in
+  let q = if has a "name" then
+      (match t with PmHost -> { q with pq_host = Some (pm_zs (pm_hex a "name")) }
+                  | PmService -> { q with pq_service = Some (pm_zs (pm_hex a "name")) })
+    else q in
+  { ph_perm = pm_zs ("objects/query/" ^ pm_tyname t); ph_tys = [t]; ph_q = q; ph_kind = "query" }
+let pm_fnames (fs : pm_field list) = List.map (fun f -> pm_sz f.pf_name) fs
+
+let op_pm_fields a =
+  let tbl = pm_cur_table (pm_zs (str a "type" "")) in
+  if tbl = [] then emit "pm_fields n=-" else begin
+    let b x = if x then "1" else "0" in
+    let rows = String.concat "" (List.sort compare (List.map (fun f ->
+      pm_sz f.pf_name ^ "/" ^ (if f.pf_nav then pm_sz f.pf_navname else "-") ^ "/" ^ b f.pf_config ^ b f.pf_state ^ b f.pf_nav
+      ^ b f.pf_hidden ^ b f.pf_objval ^ ";") tbl)) in
+    if Sys.getenv_opt "PM_FIELDS_DUMP" <> None then prerr_endline rows;
+    let names p = pm_join_sorted (List.map (fun f -> pm_sz f.pf_name) (List.filter p tbl)) in
+    emit (Printf.sprintf "pm_fields n=%d d=%08x nav=%s obj=%s" (List.length tbl) (pm_fnv rows)
+            (names (fun f -> f.pf_nav)) (names (fun f -> f.pf_objval)))
+  end
+
+let op_pm_aq a =
+  let h = pm_aq_http a in
+  let (_, r) = pm_filter_targets !pm_globals true !pm_user h.ph_perm h.ph_tys h.ph_q !pm_inv in
+  match r with
+  | PmErr _ -> emit "pm_aq code=404"
+  | PmOk objs ->
+    let t = (match h.ph_tys with [t] -> t | _ -> PmHost) in
+    (match pm_aquery pm_cur_table !pm_globals !pm_user !pm_inv t (pm_areq_of a) objs with
+     | PmA400 -> emit "pm_aq code=400"
+     | PmA200 l ->
+       let keys = List.map (fun o -> pm_keystr o.ao_key) l in
+       let akeys = match l with [] -> "-" | x :: _ -> pm_digest (pm_fnames x.ao_attrs) in
+       let js = List.concat_map (fun x -> List.map (fun ((v, k), _) -> pm_jline (v, k)) x.ao_joins) l in
+       let jk = List.fold_left (fun acc x -> List.fold_left (fun acc ((v, _), fs) ->
+           let p = pm_prefix_of_nav v in if List.mem_assoc p acc then acc else (p, pm_digest (pm_fnames fs)) :: acc) acc x.ao_joins) [] l in
+       let jk = List.sort compare jk in
+       let emb = List.map (fun (f, (jt, n)) -> pm_sz f ^ ">" ^ pm_jtyname jt ^ ":" ^ hex_enc (pm_sz n)) (pm_aobs_embeds !pm_inv l) in
+       emit (Printf.sprintf "pm_aq code=ok objs=%s akeys=%s joins=%s jkeys=%s embed=%s hidden=%d" (pm_join_sorted keys) akeys
+               (pm_join_sorted js) (if jk = [] then "-" else String.concat "/" (List.map (fun (p, d) -> p ^ "=" ^ d) jk))
+               (pm_join_sorted emb) (int_of_z (pm_aobs_hidden l))))
+
+(* <path>>Type:hexname,... -> (type, name) list *)
+let pm_parse_jkeys (s : string) : ((pm_jtype * pm_str) list, string) result =
+  try Ok (List.map (fun x ->
+      let i = String.index x '>' in
+      let r = String.sub x (i + 1) (String.length x - i - 1) in
+      let c = String.index r ':' in
+      match pm_jtype_of_name (String.sub r 0 c) with
+      | Some jt -> (jt, pm_zs (hex_dec (String.sub r (c + 1) (String.length r - c - 1))))
+      | None -> failwith "type") (pm_split ',' s))
+  with _ -> Error s
+
+(* ---------------- round 5 (e): check-then-act, directed schedule (model side of pm_race) ---------------- *)
+let rec pm_nat_of_int n = if n <= 0 then O else S (pm_nat_of_int (n - 1))
+let rec pm_int_of_nat = function O -> 0 | S n -> 1 + pm_int_of_nat n
+let pm_index_of (inv : pm_obj list) (k : pm_type * pm_str) : int option =
+  let rec go i = function [] -> None | o :: r -> if pm_key_of o = k then Some i else go (i + 1) r in go 0 inv
+(* the spec list with the target's spec replaced by the new object's (vars / references from nvars, ncp, nec, nce) *)
+let pm_race_specs (specs : pm_spec list) a : pm_spec list =
+  let svc = str a "ptype" "hosts" = "services" in
+  let target = pm_hex a "target" in
+  List.map (fun sp ->
+    let full = if sp.ps_svc then sp.ps_host ^ "!" ^ sp.ps_name else sp.ps_name in
+    if sp.ps_svc = svc && full = target then
+      { sp with ps_vars = pm_vars (str a "nvars" "-"); ps_cp = pm_hex a "ncp"; ps_ec = pm_hex a "nec"; ps_ce = pm_hex a "nce" }
+    else sp) specs
+type pm_race_res = { pr_code404 : bool; pr_objs : (pm_type * pm_str) list; pr_old : bool; pr_new : bool; pr_bad : bool }
+let pm_race_model glob user inv specs a : pm_race_res * pm_obj list =
+  let kind = str a "kind" "modify" in
+  let h = pm_http_of a in
+  let t = if str a "ptype" "hosts" = "services" then PmService else PmHost in
+  let k = (t, pm_zs (pm_hex a "target")) in
+  let inv' = pm_build_inv (pm_race_specs specs a) in
+  let (_, r) = pm_filter_targets glob true user h.ph_perm h.ph_tys h.ph_q inv in
+  match r, pm_index_of inv k, pm_index_of inv' k with
+  | PmOk l, Some x, Some x' when not (kind = "action" && l = []) ->
+    let onew = List.nth inv' x' in
+    let auth = List.filter_map (fun o -> pm_index_of inv (pm_key_of o)) l in
+    let lock = num a "lock" 1 <> 0 && (kind = "modify" || kind = "delete") in
+    let cfg = { pc_lock = lock; pc_reresolve = false } in
+    let sched = pm_race_schedule lock k (List.map pm_nat_of_int auth) onew in
+    (match pm_crun (fun o -> pm_spec_allow glob user h.ph_perm o) cfg sched (pm_cinit (pm_world_of inv)) with
+     | Some s ->
+       let acts = List.map pm_int_of_nat s.pcs_acts in
+       ({ pr_code404 = false; pr_objs = List.map pm_key_of l; pr_old = List.mem x acts; pr_new = List.mem (List.length inv) acts; pr_bad = false }, inv')
+     | None -> ({ pr_code404 = false; pr_objs = []; pr_old = false; pr_new = false; pr_bad = true }, inv'))
+  | _, _, _ -> ({ pr_code404 = true; pr_objs = []; pr_old = false; pr_new = false; pr_bad = false }, inv')
+let op_pm_race a =
+  let kind = str a "kind" "modify" in
+  let (r, _) = pm_race_model !pm_globals !pm_user !pm_inv !pm_specs a in
+  pm_specs := pm_race_specs !pm_specs a;
+  pm_inv := pm_build_inv !pm_specs;
+  if r.pr_bad then emit "pm_race model-precondition-failed"
+  else if r.pr_code404 then emit "pm_race parked=? code=404 acted=-"
+  else begin
+    let keys = pm_join_sorted (pm_dedup (List.map pm_keystr r.pr_objs)) in
+    let o = r.pr_old && kind <> "delete" and n = r.pr_new in
+    emit (Printf.sprintf "pm_race parked=? code=ok objs=%s acted=%s" keys
+            (if o && n then "old+new" else if o then "old" else if n then "new" else "-"))
+  end
+
 (* ---------------- oracle: the statement of C18 evaluated on the IMPLEMENTATION's lines ---------------- *)
 let pm_parse_keys (s : string) : ((pm_type * pm_str) list, string) result =
   let rec go acc = function
@@ -312,6 +430,65 @@ let oracle_c18_case script trace =
             else if not (pm_oracle_joins !glob !user !inv j) then
               fail (Printf.sprintf "step=%d http: unpermitted-joined-object-serialised" li)
           | _ -> fail (Printf.sprintf "step=%d unparsable-object" li)))
+    | Some ("pm_race", a) ->
+      (match next li with
+       | None -> ()
+       | Some l ->
+         let t = toks_of l in
+         let h = pm_http_of a in
+         let ty = if str a "ptype" "hosts" = "services" then PmService else PmHost in
+         let k = (ty, pm_zs (pm_hex a "target")) in
+         let specs' = pm_race_specs !specs a in
+         let inv' = pm_build_inv specs' in
+         let code = match tok_val t "code" with Some c -> c | None -> "?" in
+         let acted = match tok_val t "acted" with Some c -> c | None -> "?" in
+         let a_old = (acted = "old" || acted = "old+new") and a_new = (acted = "new" || acted = "old+new") in
+         let allow_of i = match pm_lookup i (fst k) (snd k) with Some o -> pm_spec_allow !glob !user h.ph_perm o | None -> false in
+         let has = pm_spec_has !user h.ph_perm in
+         (match (match tok_val t "objs" with None -> Ok [] | Some s -> pm_parse_keys s) with
+          | Error _ -> fail (Printf.sprintf "step=%d unparsable-object" li)
+          | Ok o ->
+            let ob = { pv_has = has; pv_cons = None; pv_res = (if code = "404" then None else Some o) } in
+            if acted = "?" then fail (Printf.sprintf "step=%d missing-observation" li)
+            else if (not has) && (code <> "404" || a_old || a_new) then fail (Printf.sprintf "step=%d race: no-permission-but-request-served" li)
+            else if not (pm_oracle_race (allow_of !inv) (allow_of inv') a_old a_new) then
+              fail (Printf.sprintf "step=%d race: acted-on-an-object-that-was-not-authorised acted=%s (filter true of the object authorised: %b, of the object that has the name now: %b)"
+                      li acted (allow_of !inv) (allow_of inv'))
+            else if not (pm_oracle_q !glob !user h.ph_perm h.ph_tys h.ph_q !inv ob) then
+              fail (Printf.sprintf "step=%d race: unpermitted-object-acted-on-or-forbidden-name-not-rejected" li));
+         specs := specs'; inv := inv')
+    | Some ("pm_fields", _) -> ignore (next li)
+    | Some ("pm_aq", a) ->
+      (match next li with
+       | None -> ()
+       | Some l ->
+         let t = toks_of l in
+         let h = pm_aq_http a in
+         let code = match tok_val t "code" with Some c -> c | None -> "?" in
+         let has = pm_spec_has !user h.ph_perm in
+         if code <> "ok" then begin
+           if code <> "404" && code <> "400" then fail (Printf.sprintf "step=%d attrs: unexpected-status" li)
+           else if (not has) && code <> "404" then fail (Printf.sprintf "step=%d attrs: no-permission-but-request-served" li)
+         end else begin
+           let keys = match tok_val t "objs" with None -> Error "?" | Some s -> pm_parse_keys s in
+           let jk = match tok_val t "joins" with None -> Error "?" | Some s -> pm_parse_jkeys s in
+           let ek = match tok_val t "embed" with None -> Error "?" | Some s -> pm_parse_jkeys s in
+           let hid = match tok_val t "hidden" with Some s -> (try Some (int_of_string s) with _ -> None) | None -> None in
+           (match keys, jk, ek, hid with
+            | Ok o, Ok j, Ok e, Some hn ->
+              let ob = { pv_has = has; pv_cons = None; pv_res = Some o } in
+              if not has then fail (Printf.sprintf "step=%d attrs: no-permission-but-request-served" li)
+              else if not (pm_oracle_q !glob !user h.ph_perm h.ph_tys h.ph_q !inv ob) then
+                fail (Printf.sprintf "step=%d attrs: unpermitted-object-acted-on-or-forbidden-name-not-rejected" li)
+              else if not (pm_oracle_aq !glob !user !inv j [] (z_of_int 0)) then
+                fail (Printf.sprintf "step=%d attrs: unpermitted-joined-object-serialised" li)
+              else if not (pm_oracle_aq !glob !user !inv [] e (z_of_int 0)) then
+                fail (Printf.sprintf "step=%d attrs: embedded-object-of-unpermitted-type-or-filter %s" li
+                        (match tok_val t "embed" with Some s -> s | None -> ""))
+              else if not (pm_oracle_aq !glob !user !inv [] [] (z_of_int hn)) then
+                fail (Printf.sprintf "step=%d attrs: hidden-field-serialised" li)
+            | _ -> fail (Printf.sprintf "step=%d unparsable-object" li))
+         end)
     | _ -> ()) script;
   !err
 
@@ -330,5 +507,8 @@ let () =
   register_op "pm_perm" op_pm_perm;
   register_op "pm_q" op_pm_q;
   register_op "pm_http" op_pm_http;
+  register_op "pm_fields" op_pm_fields;
+  register_op "pm_aq" op_pm_aq;
+  register_op "pm_race" op_pm_race;
   register_case_end (fun () -> pm_specs := []; pm_inv := []; pm_user := []; pm_globals := []);
   register_oracle "C18" oracle_c18_case
